@@ -205,15 +205,20 @@ def _walk(ctx, idx):
             if bad:
                 extra += '\ncached run crashed or wrote malformed XML: rc=%s %s' % (c.rc, c.res.etext()[-800:])
             else:
-                bd2 = os.path.join(d, 'bd_empty')
-                shutil.rmtree(bd2, ignore_errors=True)
-                os.makedirs(bd2)
-                r2 = _cached(src, bd2, state, jopt)
-                if r2.xml_ok and findings.multiset(r2.findings) == findings.multiset(c.findings):
+                storage = False
+                if any(cases.is_whole_program(x[0]) for x in oa + ob):
+                    # whole-program findings differ: does the difference depend on the history at all?
+                    bd2 = os.path.join(d, 'bd_empty')
+                    shutil.rmtree(bd2, ignore_errors=True)
+                    os.makedirs(bd2)
+                    r2 = _cached(src, bd2, state, jopt)
+                    storage = r2.xml_ok and findings.multiset(r2.findings) == findings.multiset(c.findings)
+                if storage:
                     key = 'storage-mode:%s:%s' % ('-'.join(jopt).replace('--executor=', ''), (oa or ob)[0][0])
                     extra += ('\nthe same run on an EMPTY build dir gives the same result: the difference is between '
                               'build-dir and in-memory analysis, not caused by the option history')
-                elif stepno > 0:
+                elif stepno > 0 and key not in ctx.known:
+                    # (listed findings are confirmed on two-run histories by the sweep already)
                     r = _two_state(ctx, 'w%d-confirm' % idx, prev, state, jopt)
                     if r is not None and not r[0]:
                         key = 'history:' + dim
